@@ -301,7 +301,10 @@ def toPep9 (table : List α) (p : DbPep α) : C09.Pep α :=
     cterm := p.core.cterm.getD 0
     mass := p.core.mono }
 
-/-- the fragment list of `build_from_peptides` (before the sorts, which only permute it) -/
+/-- the fragment list of `build_from_peptides` before the sorts (which only permute it). The model stops here:
+    the fragment MULTISET is what is proved and compared; the stored order (what the two unstable sorts do with
+    equal-m/z ties, which side of a bucket boundary a tie falls on) is not modelled — the correspondence harness
+    digests the stored vector and demands that it be the same for every record order, pool and repeated build. -/
 def fragmentsOf [Sub α] [Mul α] [Neg α] (k : C09.Consts α) (kinds : List C09.Kind) (minIdx : Nat) (table : List α)
     (db : List (DbPep α)) : List (Nat × α) :=
   C09.buildFragments k kinds minIdx (db.map (toPep9 table))
